@@ -127,9 +127,9 @@ def pyside(ctx, rep):
                 if r["dir"] == "send" and r.get("wire_hex") and len(sends_for_rust) < ctx.n(200, 2000):
                     sends_for_rust.append(r)
             elif r["regime"] == "random" and r["dir"] == "recv":
-                rep.violation("py:recv-assumes-full-reads", f"Python MessageStream.recv_msg under split reads: {r['err'] or 'wrong message ' + str(r['first_bad'])} sizes={r['sizes']}", case)
+                rep.violation("py:recv-assumes-full-reads", f"Python MessageStream.recv_msg under split reads: {r['err'] or 'wrong message ' + str(r.get('first_bad'))} sizes={r['sizes']}", case)
             else:
-                rep.violation(f"py:{r['dir']}-wrong", f"Python MessageStream {r['dir']} (full reads): {r['err'] or 'decoded sequence differs at ' + str(r['first_bad'])} sizes={r['sizes']}", case)
+                rep.violation(f"py:{r['dir']}-wrong", f"Python MessageStream {r['dir']} (full reads): {r['err'] or 'decoded sequence differs at ' + str(r.get('first_bad'))} sizes={r['sizes']}", case)
     # cross-language: bytes produced by the Python send_msg must be decoded by the Rust recv_msg, under chunking
     rng = ctx.rng("cross")
     reqs = [{"mode": "decode", "wire_hex": r["wire_hex"], "chunks": [rng.randint(1, 7) for _ in range(3)], "n": len(r["msgs"])} for r in sends_for_rust]
